@@ -10,6 +10,7 @@ mod lexer;
 mod mon_facts;
 mod mon_hist;
 mod mon_iter;
+mod mon_kw;
 mod mon_pp;
 mod mon_tile;
 mod mutate;
@@ -47,6 +48,7 @@ fn main() {
         "selftest" => selftest(),
         "probe" => probe(&args),
         "memo1" => props::c17::memo1_main(&args),
+        "k5enum" => props::c13::k5enum(arg(&args, "--verif").unwrap_or("/verif")),
         "memo" => {
             let mut src = String::new();
             use std::io::Read;
